@@ -16,7 +16,7 @@ use core::{convert::TryFrom, fmt};
 pub struct TransportState {
     cipherstates: CipherStates,
     pattern:      HandshakePattern,
-    dh_len:       usize,
+    pub_len:      usize,
     rs:           Toggle<[u8; MAXDHLEN]>,
     initiator:    bool,
 }
@@ -27,11 +27,11 @@ impl TransportState {
             return Err(StateProblem::HandshakeNotFinished.into());
         }
 
-        let dh_len = handshake.dh_len();
+        let pub_len = handshake.s.pub_len();
         let HandshakeState { cipherstates, params, rs, initiator, .. } = handshake;
         let pattern = params.handshake.pattern;
 
-        Ok(TransportState { cipherstates, pattern, dh_len, rs, initiator })
+        Ok(TransportState { cipherstates, pattern, pub_len, rs, initiator })
     }
 
     /// Get the remote party's static public key, if available.
@@ -42,7 +42,7 @@ impl TransportState {
     /// pattern, for example).
     #[must_use]
     pub fn get_remote_static(&self) -> Option<&[u8]> {
-        self.rs.get().map(|rs| &rs[..self.dh_len])
+        self.rs.get().map(|rs| &rs[..self.pub_len])
     }
 
     /// Construct a message from `payload` (and pending handshake tokens if in handshake state),
